@@ -248,6 +248,7 @@ class SimB(c07.Sim):
         self.nbreak = 0
         self.nconn = 0
         self.nrestart = 0
+        self.nlogout = 0
         self.logon_seen = {"A": False, "B": False}
         self.dead = False
         self.graceful_clean = False  # last outage was a graceful restart with nothing in flight / lost
@@ -278,12 +279,16 @@ class SimB(c07.Sim):
                     evs.append(("kill_send", x, "delivered"))
         if w.up and self.nbreak < CFG["max_breaks"]:
             evs.append(("brk", "eof"))
+        if (w.up and self.nlogout < 1 and all(self.logon_seen.values()) and not w.flight["AB"] and not w.flight["BA"]
+                and w.a.c.connection_state.name == "ACTIVE" and w.b.c.connection_state.name == "ACTIVE"):
+            evs.append(("logout", "A"))
+            evs.append(("logout", "B"))
         if w.can_connect():
             evs.append(("rec",))
         return evs
 
     def key(self):
-        return (super().key(), self.nrestart, self.graceful_clean, tuple(s.incarnation for s in (self.w.a, self.w.b)))
+        return (super().key(), self.nrestart, self.nlogout, getattr(self, "something_lost", False), tuple(sorted(getattr(self, "clean_from", {}).items())), self.graceful_clean, tuple(s.incarnation for s in (self.w.a, self.w.b)))
 
     def _discard(self, x):
         """The process of side x is gone: cancel its tasks, forget the object."""
@@ -321,6 +326,8 @@ class SimB(c07.Sim):
         if k == "restart":
             x = ev[1]
             clean = not w.flight["AB"] and not w.flight["BA"]
+            if not clean:
+                self.something_lost = True
             # lost-in-flight frames make a later ResendRequest legitimate
             live = (num_in(w.side(x).c), num_out(w.side(x).c))
             self.nrestart += 1
@@ -328,6 +335,7 @@ class SimB(c07.Sim):
             self.logon_seen = {"A": False, "B": False}
             self._discard(x)
             self.graceful_clean = clean
+            self.clean_from = {d: len(w.wire[d]) for d in ("AB", "BA")}
             got = (num_in(w.side(x).c), num_out(w.side(x).c))
             if got != live:
                 which = "+".join(n for n, a, b in (("in", got[0], live[0]), ("out", got[1], live[1])) if a != b)
@@ -345,6 +353,7 @@ class SimB(c07.Sim):
             # the process dies here: after the transport write, before drain returned / the journal write
             self.maybe[x].append(mid)
             self.order[x].append(mid)
+            self.something_lost = True
             d = "AB" if x == "A" else "BA"
             if fate == "delivered":
                 while w.flight[d]:
@@ -356,6 +365,31 @@ class SimB(c07.Sim):
             return self._post(ev)
         if k in ("brk",):
             self.graceful_clean = False
+            self.something_lost = True
+        if k == "logout":
+            # the application ends the session in an orderly way: Logout, then the transport is closed; the peer
+            # answers by closing as well.  Nothing is in flight when it starts.
+            from asyncfix.connection import ConnectionState
+            x = ev[1]
+            self.nlogout += 1
+            self.graceful_clean = True
+            self.clean_from = {d: len(w.wire[d]) for d in ("AB", "BA")}
+            w.loop.create_task(w.side(x).c.disconnect(ConnectionState.DISCONNECTED_WCONN_TODAY, logout_message=""))
+            w.run()
+            self.logon_seen = {"A": False, "B": False}
+            return self._post(ev)
+        if k == "dlv":
+            from mc.world2 import EOF_MARK
+            q = w.flight[ev[1]]
+            dst = w.b if ev[1] == "AB" else w.a
+            if q and q[0] is not EOF_MARK and dst.c.connection_state.value <= 3:
+                self.graceful_clean = False  # a frame reaches an end that has already closed: it is lost
+                self.something_lost = True
+        if k == "rec":
+            from mc.world2 import EOF_MARK
+            if any(f is not EOF_MARK for q in w.flight.values() for f in q):
+                self.graceful_clean = False  # something was still in flight when the connection ended: it is lost
+                self.something_lost = True
         v = super().apply(ev)
         if v is not None:
             return v
@@ -380,12 +414,12 @@ class SimB(c07.Sim):
                                    "without ever reusing an outbound MsgSeqNum for a different message", ev, number=n, first=seen[n], second=ident)
                 seen.setdefault(n, ident)
         # no ResendRequest when nothing was lost (graceful restart, nothing in flight)
-        if self.graceful_clean and self.nbreak == 0 and not any(self.maybe.values()):
+        if self.graceful_clean and not getattr(self, "something_lost", False) and not any(self.maybe.values()):
             for d in ("AB", "BA"):
-                for raw in w.wire[d]:
+                for raw in w.wire[d][getattr(self, "clean_from", {}).get(d, 0):]:
                     f, _ = refs.try_parse(raw)
                     if f and refs.fdict(f).get("35") == "2":
-                        return self._v("resend_request_when_nothing_lost", "graceful_restart", "without a ResendRequest when nothing was lost", ev)
+                        return self._v("resend_request_when_nothing_lost", "after_logout" if self.nlogout else "graceful_restart", "without a ResendRequest when nothing was lost", ev)
         return None
 
     def _ctx(self):
